@@ -69,11 +69,18 @@ def closure_params(sig):
     return names - gens
 
 
+# method calls a building function may contain: the building methods of ObservableExt (filled in by main) and these
+ALLOWED = {"clone", "unwrap", "into", "take", "new"}
+
+
 def classify(sig, body):
     b = re.sub(r"\s+", " ", body).strip()
     m = WORK.search(b)
     if m:
         return False, "calls " + m.group(0).strip(" (.")
+    for mm in re.finditer(r"\.(\w+)\s*(?:::<[^>]*>)?\s*\(", b):
+        if mm.group(1) not in ALLOWED:
+            return False, "calls the method " + mm.group(1) + " (not a building method)"
     for p in closure_params(sig):
         if re.search(r"(?<![\w.])%s\s*\(" % re.escape(p), b) or re.search(r"\(\s*%s\s*\)\s*\(" % re.escape(p), b):
             return False, "calls its closure parameter " + p
@@ -82,6 +89,11 @@ def classify(sig, body):
 
 def main():
     rows = []
+    ext = strip_comments(open(os.path.join(REPO, "src", "observable.rs")).read())
+    i0 = ext.find("pub trait ObservableExt")
+    j0 = balanced(ext, ext.find("{", i0))
+    for name, _, _ in functions(ext[i0:j0], r"^  fn (\w+)"):
+        ALLOWED.add(name)
     # source constructors
     d = os.path.join(REPO, "src", "observable")
     for f in sorted(os.listdir(d)):
